@@ -100,9 +100,10 @@ def handle(req):
         return {"ok": True, "value": enc(v)}
     if op == "exec":
         # run a python snippet; it must set `result`
-        loc = {k: dec(x) for k, x in req.get("env", {}).items()}
-        exec(req["code"], NS, loc)
-        return {"ok": True, "value": enc(loc.get("result"))}
+        ns = dict(NS)
+        ns.update({k: dec(x) for k, x in req.get("env", {}).items()})
+        exec(req["code"], ns)
+        return {"ok": True, "value": enc(ns.get("result"))}
     if op == "call":
         # call a function by dotted path with decoded args; report value or exception class
         f = eval(req["func"], NS)
